@@ -62,7 +62,8 @@ type mcall struct {
 	drops      int
 	decodes    int
 
-	responded    bool // a result or an error for this id was issued while this attempt was the latest
+	deadline     time.Duration // >0: the call's context has this deadline (from machine start)
+	responded    bool          // a result or an error for this id was issued while this attempt was the latest
 	cancelIssued bool
 	attempt      int  // 0 = first Do with this message id; >0 = issued again with the same id
 	mustComplete int  // log index of a valid result issued while this call was pending and undisturbed (-1: none)
@@ -226,7 +227,14 @@ func newMachine(t *rapid.T, hooks []string, ncalls int) *machine {
 	for i := 0; i < ncalls; i++ {
 		c := &mcall{idx: i, id: int64(1000 + 4*i), seqNo: int32(2*i + 1), mustComplete: -1}
 		c.body = []byte(fmt.Sprintf("req-%d..", i))[:8]
-		c.ctx, c.cancel = context.WithCancel(context.Background())
+		if k := rapid.SampledFrom([]int{0, 0, 1, 2, 3}).Draw(t, "deadlineTicks"); k > 0 {
+			// the caller gave a deadline instead of (or besides) cancelling by hand: it
+			// passes after k ticks of the retry interval, half a tick in
+			c.deadline = time.Duration(k)*m.retry - m.retry/2
+			c.ctx, c.cancel = context.WithTimeout(context.Background(), c.deadline)
+		} else {
+			c.ctx, c.cancel = context.WithCancel(context.Background())
+		}
 		c.rpcErr = fmt.Errorf("rpc error for call %d", i)
 		first := rapid.SampledFrom([]string{"ok", "ok", "ok", "ok", "fail", "block"}).Draw(t, "firstSend")
 		c.sendScript = []string{first}
@@ -325,7 +333,8 @@ func (m *machine) step() {
 				at := m.ev("result-issued", c.idx, "valid")
 				// the result finds the call pending and undisturbed: sent (all
 				// transmissions went through), not answered, cancelled or closed
-				clean := !c.returned && !c.responded && !c.cancelIssued && !m.closeIssued && c.firstSend == "ok"
+				clean := !c.returned && !c.responded && !c.cancelIssued && !m.closeIssued && c.firstSend == "ok" &&
+					(c.deadline == 0 || time.Since(m.t0) < c.deadline)
 				for _, o := range c.outcomes {
 					if o != "ok" {
 						clean = false
